@@ -15,6 +15,7 @@ Cep(order, salt, budget) ==
   LET r == Raw(order, salt)
       tot == SumAbsFrom(r, 2)
   IN [m \in 1..order |-> IF m = 1 THEN ((Mix(salt, order, 1) % 9) - 4) * 16            \* c_0 in -1..1
+                         ELSE IF m = 2 /\ salt % 4 = 3 THEN 0                                    \* a cepstrum whose first-order term is exactly zero
                          ELSE IF tot = 0 THEN 0 ELSE (IF r[m] < 0 THEN -1 ELSE 1) * ((Abs(r[m]) * budget) \div tot)]
 SumSq(s) == LET RECURSIVE F(_) F(t) == IF t = {} THEN 0 ELSE LET x == CHOOSE y \in t : TRUE IN x * x + x + F(t \ {x}) IN F(s)
 DecSeq(s) == LET RECURSIVE F(_) F(t) == IF t = {} THEN <<>> ELSE LET x == CHOOSE y \in t : \A z \in t : y >= z IN <<x>> \o F(t \ {x}) IN F(s)
